@@ -804,6 +804,15 @@ fn judge_fault_run(
         BaseWalk::Glob(g) => Glob::new(g).map_or(0, |g| g.partition().0.components().count()),
         BaseWalk::Path => 0,
     };
+    // "pass error items through unchanged and in place" also when the outermost combinator is
+    // consumed directly (its own `next` drives the walk) instead of beneath the logging filter
+    if !layers.is_empty() && compare_sequences(&run.sequence, &exp, prefix_len).is_none() {
+        if let Ok(bare) = props_stack::execute_bare(place, base, layers, history, link) {
+            if let Some(diff) = props_stack::bare_difference(&run, &bare) {
+                return Ok(Some((diff, bare.sequence.clone(), exp)));
+            }
+        }
+    }
     Ok(compare_sequences(&run.sequence, &exp, prefix_len).map(|p| {
         // recorded finding: following a link to an unreadable directory yields one error item
         // WITHOUT a path instead of the link's entry and an error naming it
